@@ -366,7 +366,12 @@ class _SwvReduce:
             return None
         v = vals[i]
         ax = D_.choice([k for k, m in enumerate(v.shape) if m > 1])
-        return {"op": "swv_reduce", "args": [i], "w": D_.int(1, v.shape[ax]), "axis": ax, "red": D_.choice(SWV_REDS), "keepdims": D_.chance(1, 5)}
+        n = v.shape[ax]
+        # windows near the block sizes (a block shorter than the window, or exactly window-1 long, is where the
+        # native kernel's layout differs from the advertised one without changing the block count)
+        near = sorted({w for h in getattr(D_, "hints", ()) for w in (h, h + 1, h + 2) if 1 <= w <= n} | {w for w in (2, 3) if w <= n})
+        w = D_.choice(near) if near and D_.chance(1, 2) else D_.int(1, n)
+        return {"op": "swv_reduce", "args": [i], "w": w, "axis": ax, "red": D_.choice(SWV_REDS), "keepdims": D_.chance(1, 5)}
 
     @staticmethod
     def np(s, a):
